@@ -218,6 +218,20 @@ func propC06(o *out, r *rng, thorough bool) {
 			c06One(o, strings.Replace(form, "%c", string(c), -1), "codepoint")
 		}
 	}
+	// every length up to a few hundred, made of runes that all need an escape, or all but the first or the last (a
+	// value that doubles in size when quoted)
+	for n := 0; n <= 260; n++ {
+		if n > 70 && n%8 > 2 && n != 127 && n != 129 && n != 255 && n != 257 {
+			continue
+		}
+		for _, u := range []string{"\\", "'", "\"", "\n", "é", "a"} {
+			c06One(o, strings.Repeat(u, n), "length")
+			if n > 0 {
+				c06One(o, strings.Repeat(u, n-1)+"x", "length")
+				c06One(o, "x"+strings.Repeat(u, n-1), "length")
+			}
+		}
+	}
 	words := []string{"", "select", "SELECT", "SeLeCt", "from", "time", "true", "FALSE", "and", "or", "ſelect", "KelvinK", "a.b", "a..b", "1abc", "abc1", "_x", "x-y", "with'single", "with\"double", "back\\slash",
 		"new\nline", "\\n", "\\'", "\\\"", "\\\\", "'", "''", "\"\"", "a\"b\"c", "'; DROP DATABASE d; --", "\" OR \"\"=\"", "x' OR 'y", "日本語", "héllo", "😀", "\xff", "\xc3", "a\xffb", "trailing\\", "\\", "a b", " lead", "trail ", "tab\there"}
 	for _, kw := range []string{"ALL", "ALTER", "KEY", "keys", "Duration", "inf", "INTO", "tag", "FIELD", "measurement", "limit", "group", "by"} {
